@@ -230,6 +230,9 @@ def archetypes(tier, seed):
     s2 = {"left": bd("$"), "repeat": [[bd("$", "", 5), "OCC", bd("$", "", 1)]], "end": [], "right": bd("$"), "dist": dists[3]}
     s3 = {"left": bd("$"), "repeat": [[bd("$"), "NC", bd("$", "", 0.5)]], "end": [], "right": bd("$"), "dist": dists[1]}
     out.append({"elements": [["C"], s1, s2, s3, ["F"]], "archetype": "triblock-adjacent-objects"})
+    # a branching repeat unit whose listed transitions attach an END GROUP during growth (its mass counts towards the target like any other unit)
+    st = {"left": bd(">"), "repeat": [[bd("<"), "C(", bd(">", 1, [0, 0, 0, 1]), ")C", bd(">", "", [1, 0, 0, 0])]], "end": [[bd("<", 1), "F"]], "right": bd("<"), "dist": "gauss(100, 0)"}
+    out.append({"elements": [["C"], st, ["N"]], "archetype": "listed-transition-to-end-group-during-growth"})
     # more than 26 tokens in one molecule (the residue-name table has 26 letters)
     many = [["C"]]
     for _ in range(14):
